@@ -31,7 +31,7 @@ ASSUMPTIONS = [
 ]
 CASES = {'quick': 18000, 'thorough': 240000}
 TIME = {'quick': 60, 'thorough': 500}
-MIN_NONTRIVIAL = {'quick': 3000, 'thorough': 30000}
+MIN_NONTRIVIAL = {'quick': 1200, 'thorough': 12000}
 REQUIRED = ('openings_checked', 'stud_low_card_openings',
             'stud_high_card_openings', 'stud_high_hand_openings',
             'stud_low_hand_openings', 'position_first_round',
